@@ -390,7 +390,8 @@ class Pool():
                         continue
                     try:
                         msg = conn.recv()
-                    except EOFError:
+                    except (EOFError, OSError):
+                        # OSError: a worker killed in the middle of sending a result leaves a message which ends half-way
                         logger.debug('EOFError occurred while reading from a pipe: {} - will try to issue artificial closing message', conn)
                         found = False
                         for wid, queue in self._queues.items():
